@@ -185,6 +185,31 @@ def body_resolve(case, note):
     check([uid(d) for d in wrapped.get_dependencies()] == want, "Tag.get_dependencies() differs when the same content is nested two levels deeper")
     check([uid(d) for d in wrapped.get_dependencies(dedup=False)] == pre_uids, "Tag.get_dependencies(dedup=False) dropped or reordered")
     check([uid(d) for d in wrapped.get_dependencies(False)] == pre_uids, "Tag.get_dependencies(False) (positional) dropped or reordered")
+    # history: the tree was queried (above); a dependency is then added somewhere below and the tree is queried again
+    all_tags = []
+
+    def _walk_tags(objs_):
+        for o in objs_:
+            if isinstance(o, h.Tag):
+                all_tags.append(o)
+                _walk_tags(list(o.children))
+
+    _walk_tags(list(tl))
+    grown = False
+    if all_tags:
+        pick = case.get("repeat", 0) + len(pre)
+        target = all_tags[pick % len(all_tags)]
+        nd = h.HTMLDependency("added-later", "9.9", head="<late>")
+        if pick % 2:
+            target.children.append(nd)
+        else:
+            target.append("t", [nd])
+        now = _own_walk(list(tl), [])
+        got_now = tl.get_dependencies(dedup=False)
+        check(len(got_now) == len(now) and all(a is b for a, b in zip(got_now, now)), "after a dependency was added below an already queried tag, get_dependencies(dedup=False) is not the dependencies in document order", [getattr(d, "name", "?") for d in now], [getattr(d, "name", "?") for d in got_now])
+        check(any(d is nd for d in tl.get_dependencies()), "a dependency added after an earlier query is missing from get_dependencies()")
+        check(any(d.name == "added-later" for d in tl.render()["dependencies"]), "a dependency added after an earlier query is missing from render()['dependencies']")
+        grown = True
     # non-trivial: same name with versions whose lexical and numeric order disagree, or an equal-version tie
     nt = False
     byname: dict = {}
@@ -202,6 +227,7 @@ def body_resolve(case, note):
                     lexdis = True
     note(tie or lexdis, "same-object-repeated" if case.get("repeat") and len(pre_uids) > len(set(pre_uids)) else "", "tie" if tie else "", "lexical-vs-numeric" if lexdis else "", "nested-depth" if any(n["k"] in ("tag", "list") for n in roots) else "", "suffix" if any(not d["version"].replace(".", "").isdigit() for d in pre) else "",
          "more-than-64-dependencies" if len(pre) > 64 else "", "more-than-200-dependencies" if len(pre) > 200 else "", "bare-definition" if any("head" not in d or d["head"] == [] or d.get("script") == [] for d in pre) else "",
+         "queried-then-grown-then-queried" if grown else "",
          "head_content-before-a-dependency" if any("_headc" in d and any("_headc" not in e for e in pre[i + 1 :]) for i, d in enumerate(pre)) else "")
 
 
@@ -282,7 +308,7 @@ def invalid_case():
             "field": field,
             "n_items": st.integers(1, 3),
             "at": st.integers(0, 2),
-            "how": st.sampled_from(["non-dict", "missing-key", "missing-key2", "empty-dict"]),
+            "how": st.sampled_from(["non-dict", "missing-key", "missing-key2", "empty-dict", "alias-key", "alias-key2"]),
             "bad": st.sampled_from(BAD_ITEMS),
             "bad_source": st.sampled_from([3, "lib/", ["a"], {"package": "htmltools"}, {}, {"dir": "x"}, 2.5, {"mapping": "proxy"}, {"mapping": "userdict"}, {"mapping": "chainmap"}]),
             "single": st.booleans(),
@@ -291,6 +317,7 @@ def invalid_case():
 
 
 REQ = {"script": ["src"], "stylesheet": ["href"], "meta": ["name", "content"]}
+ALIASES = {"src": ["href", "source", "SRC", "url"], "href": ["src", "url", "HREF", "link"], "name": ["http-equiv", "property", "itemprop", "charset"], "content": ["value", "contents", "http-equiv"]}
 
 
 def body_invalid(case, note):
@@ -331,12 +358,16 @@ def body_invalid(case, note):
             cls = f + ":empty-dict-item"
         else:
             req = REQ[f]
-            key = req[0] if case["how"] == "missing-key" else req[-1]
+            key = req[0] if case["how"] in ("missing-key", "alias-key") else req[-1]
             item = dict(bad[f][i])
             del item[key]
             item["other"] = "x"
+            if case["how"].startswith("alias-key"):
+                # the required key is missing, a related / similarly named one is there instead
+                for alias in ALIASES[key]:
+                    item[alias] = "a.x"
             bad[f][i] = item
-            cls = f + ":missing-" + key
+            cls = f + ":missing-" + key + ("+alias" if case["how"].startswith("alias-key") else "")
         if case["single"] and case["n_items"] == 1:
             bad[f] = bad[f][0]
             cls += ":single"
@@ -375,7 +406,7 @@ CLAUSES = [
         quick=900,
         thorough=12000,
         shards_quick=4,
-        required=("tie", "lexical-vs-numeric", "nested-depth", "suffix", "same-object-repeated", "more-than-64-dependencies", "more-than-200-dependencies", "bare-definition", "head_content-before-a-dependency"),
+        required=("tie", "lexical-vs-numeric", "nested-depth", "suffix", "same-object-repeated", "more-than-64-dependencies", "more-than-200-dependencies", "bare-definition", "head_content-before-a-dependency", "queried-then-grown-then-queried"),
         rule="see RULE",
     ),
     Clause("single", body_single, strategy=single_case, quick=400, thorough=3000, shards_quick=1, shards_thorough=4, rule=">=2 of script/stylesheet/meta given"),
@@ -387,7 +418,7 @@ CLAUSES = [
         thorough=4000,
         shards_quick=1,
         shards_thorough=4,
-        required=("script:missing-src", "stylesheet:missing-href", "meta:missing-name", "meta:missing-content", "script:non-dict-item", "source:dict", "source:int", "index>0", "source:non-dict-mapping", "script:non-dict-mapping-item", "script:empty-dict-item:single", "meta:empty-dict-item:single", "stylesheet:empty-dict-item"),
+        required=("script:missing-src", "stylesheet:missing-href", "meta:missing-name", "meta:missing-content", "script:non-dict-item", "source:dict", "source:int", "index>0", "source:non-dict-mapping", "script:non-dict-mapping-item", "script:empty-dict-item:single", "meta:empty-dict-item:single", "stylesheet:empty-dict-item", "meta:missing-name+alias", "script:missing-src+alias"),
         rule="every case",
     ),
 ]
